@@ -20,6 +20,7 @@ let install register get =
     (* parents first, so that the list is a well-formed tree in the model's sense whatever order the snapshot came in *)
     let tree = List.stable_sort (fun (a, _) (b, _) -> compare (List.length a) (List.length b)) tree in
     let p = path_of (get kv "path") in
+    let p2 = (try path_of (get kv "path2") with _ -> []) in
     let r = match get kv "op", spec with
       | "mkdirall", false -> FsTree.c_mkdirall (S (nat_of_int (List.length p))) tree p
       | "mkdirall", true -> FsTree.spec_mkdirall tree p
@@ -32,6 +33,9 @@ let install register get =
       | "rmdir", false -> FsTree.p_remove tree p      (* RMDIR is answered with os.Remove *)
       | "rmdir", true -> FsTree.p_rmdir tree p        (* the twin uses rmdir(2) *)
       | "mkdir", _ -> FsTree.p_mkdir tree p
+      | ("rename" | "posixrename"), _ -> FsTree.p_rename tree p p2   (* the server answers both with os.Rename *)
+      | "link", _ -> FsTree.p_link tree p p2
+      | "symlink", _ -> FsTree.p_symlink (get kv "target" = "empty") tree p
       | o, _ -> failwith ("bad op " ^ o) in
     match r with
     | None -> "skip"
